@@ -29,13 +29,55 @@ def appliedPerStep (mans : List Int) : Int → List Int → List (List Nat)
   | t0, h :: rest =>
     ((List.range mans.length).filter (fun i => decide (impCheck (mans.getD i 0) t0 h))) :: appliedPerStep mans (t0 + h) rest
 
-/-- stage dates of one Runge–Kutta step: `date + c * step` for the Butcher nodes `c = num/den`
-(exact when `den ∣ num * step`; the harness only uses such steps) -/
+/-- Python's `datetime._divide_and_round(a, b)` for `b > 0`: the integer nearest to `a / b`, ties to even
+(`q, r = divmod(a, b); r *= 2; if r > b or (r == b and q % 2 == 1): q += 1`) -/
+def divRound (a b : Int) : Int :=
+  let q := a / b
+  let r := a % b
+  if 2 * r > b ∨ (2 * r = b ∧ q % 2 = 1) then q + 1 else q
+
+/-- `step * c` of `_make_step` (`timedelta.__mul__(float)`): the microseconds of `step` times the exact ratio
+`c = num/den` of the float node, divided and rounded to the microsecond by `_divide_and_round` -/
+def stageOffset (c : Int × Int) (step : Int) : Int := divRound (step * c.1) c.2
+
+/-- stage dates of one Runge–Kutta step: `y_n_prime.date += step * c` for the Butcher nodes `c`
+(regenerated as the exact ratios of the floats in `KeplerNum.BUTCHER`) -/
 def stageDates (cs : List (Int × Int)) (date step : Int) : List Int :=
-  cs.map (fun c => date + c.1 * step / c.2)
+  cs.map (fun c => date + stageOffset c step)
 
 /-- which stages of a step see the continuous maneuver `[start, stop)` switched on -/
 def stagesOn (cs : List (Int × Int)) (start stop date step : Int) : List Bool :=
   (stageDates cs date step).map (fun d => decide (contCheck start stop d))
+
+/-! ### Quadrature of the on/off switch by the step loop
+
+`_make_step`: `y_n_1 = y_n + step.total_seconds() * bb @ ks` with `ks[i] = _accel(y_n_prime_i)`, and `_accel` adds
+`man.accel(orb)` iff `man.check(orb.date)`.  The velocity part of a step therefore receives, from one burn,
+`h · Σ_i b_i · [start ≤ date + c_i·h < stop] · accel_i`.  With the weights written `b_i = w_i / D` (integers, common
+denominator `D`, regenerated), `thrustUnits` is `D ·` the *thrust time* `Σ_steps h · Σ_i b_i [on at stage i]` in µs. -/
+
+/-- stages of a step of length `h`: (offset of the stage date from the step's start, weight numerator) -/
+def stagesOf (cs : List (Int × Int)) (ws : List Int) (h : Int) : List (Int × Int) :=
+  (cs.map (fun c => stageOffset c h)).zip ws
+
+/-- `Σ_i w_i [burn on at stage i]` for the step starting at `date` -/
+def stepWeight (start stop date : Int) : List (Int × Int) → Int
+  | [] => 0
+  | (o, w) :: rest => (if contCheck start stop (date + o) then w else 0) + stepWeight start stop date rest
+
+/-- `D ·` thrust time (µs) delivered by the step loop over the realised steps `steps` from `t0` -/
+def thrustUnits (cs : List (Int × Int)) (ws : List Int) (start stop : Int) : Int → List Int → Int
+  | _, [] => 0
+  | t, h :: rest => h * stepWeight start stop t (stagesOf cs ws h) + thrustUnits cs ws start stop (t + h) rest
+
+/-- the same for `n` equal steps `h` with a fixed stage list -/
+def thrustUnitsFixed (sts : List (Int × Int)) (start stop h : Int) : Int → Nat → Int
+  | _, 0 => 0
+  | t, n + 1 => h * stepWeight start stop t sts + thrustUnitsFixed sts start stop h (t + h) n
+
+/-- number of the `n` steps `t, t+h, …` whose stage at offset `o` sees the burn on -/
+def stageCount (start stop o h : Int) : Int → Nat → Int
+  | _, 0 => 0
+  | t, n + 1 => (if contCheck start stop (t + o) then 1 else 0) + stageCount start stop o h (t + h) n
 
 end BeyondVerif.ManWin
